@@ -69,6 +69,15 @@ def catalogue():
 
     add("stochastic state", lambda: dict(n_periods=2, functions=dict(utility=lambda h, d: d * 1.0 + h, next_h=next_h), choices=dict(d=dg(2)), states=dict(h=dg(2))), lambda n: {"h": jnp.arange(n) % 2})
     add("stochastic depending on choice and period", lambda: dict(n_periods=2, functions=dict(utility=lambda h, d: d * 1.0 + h, next_h=next_h2), choices=dict(d=dg(2)), states=dict(h=dg(3))), lambda n: {"h": jnp.arange(n) % 3})
+    @lcm.mark.stochastic
+    def next_skill(skill, d):
+        pass
+
+    add(
+        "two stochastic states of different size, next_* declared in another order than the states",
+        lambda: dict(n_periods=3, functions=dict(utility=lambda h, skill, d: d * 1.0 + h + skill, next_skill=next_skill, next_h=next_h), choices=dict(d=dg(2)), states=dict(h=dg(2), skill=dg(3))),
+        lambda n: {"h": jnp.arange(n) % 2, "skill": jnp.arange(n) % 3},
+    )
     add("stochastic + filter", lambda: dict(n_periods=2, functions=dict(utility=lambda h, s, d: d * 1.0 + h + s, next_h=next_h, next_s=lambda d: d, abs_filter=lambda s, d: jnp.logical_or(d == 1, s == 0)), choices=dict(d=dg(2)), states=dict(h=dg(2), s=dg(2))), lambda n: {"h": jnp.arange(n) % 2, "s": jnp.arange(n) % 2})
     add("continuous state grid with one point", lambda: dict(n_periods=2, functions=dict(utility=u_wc, next_wealth=lambda wealth, c: wealth - c), choices=dict(c=C()), states=dict(wealth=lin(1, 2, 1))), lambda n: {"wealth": jnp.ones(n)})
     add("continuous choice grid with one point", lambda: dict(n_periods=2, functions=dict(utility=u_wc, next_wealth=lambda wealth, c: wealth - c), choices=dict(c=lin(1, 2, 1)), states=dict(wealth=W())), w0)
